@@ -440,7 +440,7 @@ META = {
                "thorough": "lookup strings <= 6 chars"},
     "outside_claim": ["real processes, file systems and glob ordering (in-memory substitutes; glob order is unspecified by the property)", "ini input (string-only data)",
                       "lookups with empty or '-' segments (unspecified)"],
-    "assumptions": ["fake Path.open / cli.open model the OS", "the library reference is built from an independent option table"],
+    "assumptions": ["an ini file means what configparser.ConfigParser() with its default settings reports (sections as objects, basic %(name)s interpolation, DEFAULT inherited, keys lower-cased)", "a path argument is a pattern only through * and ? (process_path's documented rule); files whose names start with a dot are not used in the pattern scenario", "fake Path.open / cli.open model the OS", "the library reference is built from an independent option table"],
 }
 if isinstance(META.get("bounds"), dict) and "quick" in META["bounds"]:
     META["bounds"]["quick"] += '; path patterns (4) on a real temporary directory with 5 directory names, -m / -l; fractional percents'
